@@ -56,7 +56,7 @@ fn parse_data(tok: &str) -> Option<Vec<u8>> {
     None
 }
 
-fn parse_cmd(t: &mut Toks) -> Option<Command> {
+pub fn parse_cmd(t: &mut Toks) -> Option<Command> {
     Some(match t.tok()? {
         "SR" => Command::SetRoot { root: t.string()? },
         "GE" => {
